@@ -19,6 +19,7 @@ import (
 	"github.com/cinar/indicator/v2/asset"
 	"github.com/cinar/indicator/v2/helper"
 	"github.com/cinar/indicator/v2/strategy"
+	"github.com/cinar/indicator/v2/trend"
 )
 
 // ---------------------------------------------------------------- pacing
@@ -389,6 +390,13 @@ func startPipeline(r *obsRun, kind, name string, n []int, f []float64, env [][]f
 			c := feed(r, env[0], capacity, pc, 0, 1)
 			d := helper.Duplicate[float64](c, 2)
 			w := helper.Subtract(helper.Skip(d[1], k), helper.Buffered(d[0], b))
+			r.drain(floatRecv(w), pc, 0, 1)
+			break
+		}
+		if name == "msum" && len(env) == 2 && len(env[1]) == 1 {
+			// trend.MovingSum as the library builds it (NetM.msumNet with a Shift buffer of cap + p)
+			c := feed(r, env[0], capacity, pc, 0, 1)
+			w := trend.NewMovingSumWithPeriod[float64](int(env[1][0])).Compute(c)
 			r.drain(floatRecv(w), pc, 0, 1)
 			break
 		}
